@@ -1,10 +1,223 @@
 import Driver.Common
-/-! Judge for C04: not built yet (stub so that the target exists). -/
-open Lean Driver
+import EgVerif.Spec.LoadBalance
+/-! Judge for C04: runs `Model.LoadBalance` and `Spec.LoadBalance` on every harness case. -/
+open Lean Driver EgVerif.LoadBalance
 
 namespace Driver.C04
 
-def judges : List (String × Judge) := []
+def bytes (s : String) : List Nat := s.toUTF8.toList.map (·.toNat)
+
+def parseTags (j : Json) : List String :=
+  match getStrList j "tags" with | .ok l => l | .error _ => []
+
+def parseServers (input : Json) : Except String (List Server) := do
+  let a ← getArr input "servers"
+  a.toList.mapM fun e => do
+    let u ← getStr e "url"
+    pure (⟨u, optInt e "weight", parseTags e⟩ : Server)
+
+def parseGens (input : Json) : Except String (List (List Instance)) := do
+  let a ← getArr input "gens"
+  a.toList.mapM fun g => do
+    let is ← match g with | .null => pure #[] | _ => g.getArr?
+    is.toList.mapM fun e => do
+      let addr ← getStr e "addr"
+      let port ← getNat e "port"
+      pure (⟨s!"http://{addr}:{port}", parseTags e, optInt e "weight"⟩ : Instance)
+
+/-- insertion sort on strings (canonical order of a published list) -/
+def insertS (s : String) : List String → List String
+  | [] => [s]
+  | a :: r => if s ≤ a then s :: a :: r else a :: insertS s r
+def sortS (l : List String) : List String := l.foldr insertS []
+
+def showSrv (s : Server) : String := s!"{s.url}|{s.weight}"
+
+def idxOf (ss : List Server) (r : Res) : Int :=
+  match r with
+  | .nil => -1
+  | .panic => -3
+  | .srv s => match ss.findIdx? (fun x => x.url == s.url) with
+    | some i => i
+    | none => -2
+
+def addAt : List Nat → Nat → Nat → List Nat
+  | [], _, _ => []
+  | a :: r, 0, d => (a + d) :: r
+  | a :: r, i + 1, d => a :: addAt r i d
+
+def tallyOf (n : Nat) (idxs : List Int) : List Nat :=
+  idxs.foldl (fun t i => if i ≥ 0 then addAt t i.toNat 1 else t) (List.replicate n 0)
+
+def natList (j : Json) (k : String) : List Nat :=
+  match getIntList j k with | .ok l => l.map Int.toNat | .error _ => []
+
+def isDet (p : Policy) : Bool := p == .roundRobin || p == .ipHash || p == .headerHash
+def isHash (p : Policy) : Bool := p == .ipHash || p == .headerHash
+
+def policyTag : Policy → String
+  | .roundRobin => "roundRobin" | .random => "random" | .weightedRandom => "weightedRandom"
+  | .ipHash => "ipHash" | .headerHash => "headerHash"
+
+def weightClass (ss : List Server) : String :=
+  if ss.isEmpty then "w:none"
+  else if ss.all (fun s => s.weight == 0) then "w:all-zero"
+  else if ss.all (fun s => decide (s.weight > 0)) then "w:all-positive"
+  else if ss.any (fun s => decide (s.weight < 0)) then "w:some-negative"
+  else "w:mixed"
+
+def panicSig (lb : LB) (lists : List (List Server)) (m : String) : String :=
+  if lb.policy == .weightedRandom && lists.any (fun l => decide (totalWeightOrig l ≤ 0) && !l.isEmpty) then
+    "panic:weightedRandom:totalWeight<=0"
+  else s!"panic:{policyTag lb.policy}:{(m.take 40).toString}"
+
+/-- `LoadBalanceSpec.Policy` jsonschema enum (re-derived from the source: `Props.C04.policy_enum_fact`). -/
+def schemaPolicies : List String := ["", "roundRobin", "random", "weightedRandom", "ipHash", "headerHash"]
+
+def judge : Judge := liftJudge fun input obs => do
+  let mode := optStr input "mode" "seq"
+  let policyS := optStr input "policy"
+  let headerKey := optStr input "headerKey"
+  let servers ← parseServers input
+  let keys := match getStrList input "keys" with | .ok l => l | .error _ => []
+  let K := (optInt input "k").toNat
+  let K := if K > 200000 then 200000 else K
+  let G := (optInt input "g" 1).toNat
+  let G := if G < 1 then 1 else if G > 256 then 256 else G
+  let path := optStr input "path" "/"
+  let path := if path == "" then "/" else path
+  let lb := newLB policyS servers
+  let n := servers.length
+  let keyAt (i : Nat) : String := if keys.isEmpty then "" else keys[i % keys.length]!
+  let selOf (c : Nat) (key : String) : Sel :=
+    { counter := c, rnd := 0, ip := bytes key, hdr := if headerKey == "" then [] else bytes key }
+  let baseTags := [s!"mode:{mode}", s!"policy:{policyTag lb.policy}", weightClass servers,
+    if n == 0 then "n=0" else if n == 1 then "n=1" else if n ≤ 4 then "n=2-4" else "n>4"]
+  match obsPanic obs with
+  | some m =>
+    let stags : List String := match getStrList input "serverTags" with | .ok l => l | .error _ => []
+    let gens := match parseGens input with | .ok g => g | .error _ => []
+    let lists := servers :: (if mode == "swap" then gens.map (useService ⟨"svc", stags, servers, policyS⟩) else [])
+    pure { agree := false, spec := false, tags := baseTags ++ ["panic"], sig := panicSig lb lists m, note := m,
+           nontrivial := true }
+  | none =>
+  let weights := servers.map (·.weight)
+  let somePos := weights.any (fun w => decide (w > 0))
+  if mode == "seq" || mode == "conc" then
+    let tally := natList obs "tally"
+    let nilc ← getNat obs "nil"
+    let foreign ← getNat obs "foreign"
+    let total ← getNat obs "total"
+    let echo := optBool obs "keyEcho" true
+    let seqObs : List Int := match getIntList obs "seq" with | .ok l => l | .error _ => []
+    -- the selections made: (counter, key) in seq mode; per goroutine in conc mode
+    let per := K / G
+    let Ktot := if mode == "seq" then K else per * G
+    -- model: expected index sequence / tally for the deterministic policies
+    let expIdx : List Int :=
+      if mode == "seq" then (List.range K).map (fun i => idxOf servers (choose lb (selOf i (keyAt i))))
+      else if lb.policy == .roundRobin then (List.range Ktot).map (fun i => idxOf servers (choose lb (selOf i "")))
+      else (List.range G).flatMap (fun g => List.replicate per (idxOf servers (choose lb (selOf 0 (keyAt g)))))
+    let expTally := tallyOf n expIdx
+    let expNil := if n == 0 then Ktot else 0
+    let membership := foreign == 0 && nilc == expNil && total == Ktot && sumNat tally + nilc == Ktot
+      && tally.length == n
+    let agree :=
+      if isDet lb.policy then
+        membership && tally == expTally && (mode != "seq" || seqObs == expIdx.take 512)
+      else
+        membership && (lb.policy != .weightedRandom || decide (totalWeight servers ≤ 0) ||
+          (weights.zip tally).all (fun p => decide (p.1 > 0) || p.2 == 0))
+    -- spec on the observation
+    let specMem := foreign == 0 && (if n == 0 then nilc == total else nilc == 0)
+    let specRR := lb.policy != .roundRobin || n == 0 || fairTally total n tally
+    let specSticky := !isHash lb.policy || mode != "seq" ||
+      sticky ((List.range seqObs.length).map (fun i => (bytes (keyAt i), seqObs[i]!)))
+    let specW := lb.policy != .weightedRandom || weightedOK weights tally
+    let spec := specMem && specRR && specSticky && specW && echo
+    let sig := if spec then "" else
+      if !specMem then "membership:" ++ (if foreign != 0 then "foreign-server" else "nil-vs-empty")
+      else if !specRR then s!"roundRobin:unfair:{mode}"
+      else if !specSticky then "hash:not-sticky"
+      else if !specW then "weightedRandom:zero-weight-chosen"
+      else "harness:key-not-echoed"
+    pure { agree := agree, spec := spec,
+           expected := Json.mkObj [("tally", Json.arr (expTally.map (fun (c : Nat) => Json.num (Int.ofNat c))).toArray),
+                                   ("nil", Json.num (Int.ofNat expNil)), ("deterministic", isDet lb.policy)],
+           tags := baseTags ++ (if Ktot > n then ["k>n"] else ["k<=n"]) ++
+             (if mode == "conc" then [s!"g={G}"] else []) ++ (if somePos then [] else ["no-positive-weight"]),
+           nontrivial := n ≥ 2 && Ktot ≥ 2, sig := sig }
+  else if mode == "swap" then
+    let gens ← parseGens input
+    let stags : List String := match getStrList input "serverTags" with | .ok l => l | .error _ => []
+    let sps : PoolSpec := ⟨optStr input "serviceName", stags, servers, policyS⟩
+    let modelLists : List (List Server) := servers :: gens.map (useService sps)
+    let specLists : List (List Server) := servers :: gens.map (currentList sps)
+    let obsLists : List (List String) ← do
+      let a ← getArr obs "lists"
+      a.toList.mapM (fun l => match l with | .null => pure [] | _ => do
+        let x ← l.getArr?
+        x.toList.mapM (·.getStr?))
+    let agreeLists := obsLists == modelLists.map (fun l => sortS (l.map showSrv))
+    let specListsOK := obsLists == specLists.map (fun l => sortS (l.map showSrv))
+    let urlLists := specLists.map (fun l => l.map (·.url))
+    let triples ← getArr obs "triples"
+    let trs ← triples.toList.mapM fun t => do
+      let a ← getNat t "a"
+      let b ← getNat t "b"
+      let u ← getStr t "url"
+      pure (a, b, if u == "<nil>" then none else some u)
+    let modelUrlLists := modelLists.map (fun l => l.map (·.url))
+    let winModel := trs.all (fun (a, b, u) => windowOK modelUrlLists a b u)
+    let winSpec := trs.all (fun (a, b, u) => windowOK urlLists a b u)
+    let fallback := (gens.map (useService sps)).any (fun l => l == servers)
+    let spanning := trs.any (fun (a, b, _) => a != b)
+    pure { agree := agreeLists && winModel, spec := specListsOK && winSpec,
+           expected := Json.arr (modelLists.map (fun l => Json.arr ((sortS (l.map showSrv)).map Json.str).toArray)).toArray,
+           tags := baseTags ++ [s!"gens={gens.length}"] ++ (if fallback then ["fallback-static"] else [])
+             ++ (if spanning then ["selection-spans-swap"] else [])
+             ++ (if sps.serverTags.isEmpty then ["no-server-tags"] else []),
+           nontrivial := gens.length ≥ 1 && !trs.isEmpty,
+           sig := if !specListsOK then "useService:wrong-list" else if !winSpec then "swap:server-outside-current-lists" else "" }
+  else -- handle
+    let sps : PoolSpec := ⟨optStr input "serviceName", [], servers, policyS⟩
+    let validObs := optBool obs "valid"
+    let validModel := validate sps && schemaPolicies.contains policyS
+    if !validObs || !validModel then
+      pure { agree := validObs == validModel, spec := true, expected := Json.mkObj [("valid", validModel)],
+             tags := baseTags ++ ["rejected-by-validation"], nontrivial := false }
+    else
+    let reqs ← getArr obs "reqs"
+    let rs ← reqs.toList.mapM fun r => do
+      pure (optStr r "result", optInt r "status", optStr r "target")
+    let Kh := if K > 4096 then 4096 else K
+    let exp : List (String × Int × String) := (List.range Kh).map fun i =>
+      match doHandleTarget lb (selOf i (keyAt i)) path with
+      | .unavailable => ("internalError", 503, "")
+      | .send u => ("", 200, u)
+      | .panic => ("<panic>", 0, "")
+    let urls := servers.map (fun s => s.url ++ path)
+    let posUrls := (servers.filter (fun s => decide (s.weight > 0))).map (fun s => s.url ++ path)
+    let memOK := rs.all fun (res, st, tgt) =>
+      if n == 0 then res == "internalError" && st == 503 && tgt == ""
+      else res == "" && st == 200 && urls.contains tgt
+    let wOK := lb.policy != .weightedRandom || !somePos || rs.all (fun (_, _, tgt) => posUrls.contains tgt)
+    let agree := rs.length == Kh && (if isDet lb.policy then rs == exp else memOK && wOK)
+    let stickyOK := !isHash lb.policy ||
+      sticky ((List.range rs.length).map (fun i =>
+        (bytes (keyAt i), match urls.findIdx? (· == (rs[i]!).2.2) with | some j => (j : Int) | none => -2)))
+    let tallyRR := tallyOf n (rs.map (fun (_, _, tgt) => match urls.findIdx? (· == tgt) with | some j => (j : Int) | none => -2))
+    let fairOK := lb.policy != .roundRobin || n == 0 || fairTally rs.length n tallyRR
+    let spec := memOK && wOK && stickyOK && fairOK && rs.length == Kh
+    pure { agree := agree, spec := spec,
+           expected := Json.arr (exp.map (fun (a, b, c) => Json.arr #[Json.str a, Json.num (b : Int), Json.str c])).toArray,
+           tags := baseTags ++ ["validated-spec"] ++ (if somePos then [] else ["no-positive-weight"]),
+           nontrivial := n ≥ 2 && Kh ≥ 1,
+           sig := if spec then "" else if !memOK then "handle:target-not-in-list-or-wrong-503"
+             else if !wOK then "weightedRandom:zero-weight-chosen" else if !stickyOK then "hash:not-sticky"
+             else if !fairOK then "roundRobin:unfair:handle" else "handle:request-count" }
+
+def judges : List (String × Judge) := [("C04", judge)]
 
 end Driver.C04
 
